@@ -163,6 +163,20 @@ def evaluate(ctx, T, v, dt=None, cdt=None):
         ctx.ok('text-value-exportable')
     except Exception as e:  # noqa
         ctx.finding(f'text:export:{T["k"]}:{type(e).__name__}', case, f'{s!r} -> {v2!r}: {e!r}')
+    # (7) the text of the client's cache entry (str(item), "may be used in this form for setParameterFromString")
+    try:
+        from frappy.client import CacheItem
+        if cdt is None:
+            cdt = get_datatype(json.loads(json.dumps(dt.export_datatype())), 'p')
+        item = CacheItem(cdt.import_value(json.loads(json.dumps(dt.export_value(iv)))), 1.0, None, cdt)
+        text_ = str(item)
+        v3 = cdt.from_string(text_)
+        if not has_float_leaf(T) and rm.canon(v3) != civ:
+            ctx.finding(f'text:cache-item:changed:{T["k"]}', case, f'{civ!r} -> str(item) {text_!r} -> {rm.canon(v3)!r}')
+        else:
+            ctx.ok('text-cache-item')
+    except Exception as e:  # noqa
+        ctx.finding(f'text:cache-item:{T["k"]}:{type(e).__name__}', case, f'{civ!r}: {e!r}'[:300])
 
 
 ZERO = None
